@@ -175,13 +175,14 @@ def tables_defs():
 # ------------------------------------------------------------------------------------------
 class U(object):
     """One data unit: kind tag + abstract fields + payload bytes + coded offsets (None = correct)."""
-    __slots__ = ("tag", "f", "payload", "npo", "ppo", "code")
+    __slots__ = ("tag", "f", "payload", "npo", "ppo", "code", "ext")
 
-    def __init__(self, tag, f, payload, code, npo=None, ppo=None):
+    def __init__(self, tag, f, payload, code, npo=None, ppo=None, ext=None):
         self.tag, self.f, self.payload, self.code, self.npo, self.ppo = tag, tuple(f), payload, code, npo, ppo
+        self.ext = ext   # pictures / first fragments: payload carries extended transform parameters (coded for major_version >= 3)
 
     def copy(self, **kw):
-        u = U(self.tag, self.f, self.payload, self.code, self.npo, self.ppo)
+        u = U(self.tag, self.f, self.payload, self.code, self.npo, self.ppo, self.ext)
         for k, v in kw.items():
             setattr(u, k, v)
         return u
@@ -307,12 +308,12 @@ class Config(object):
         for code, payload in split_units(data):
             if code in (200, 232):
                 n = struct.unpack(">I", payload[:4])[0]
-                out.append(U(1, (1 if code == 232 else 0, n) + tpf, payload, code))
+                out.append(U(1, (1 if code == 232 else 0, n) + tpf, payload, code, ext=ext))
             elif code in (204, 236):
                 n = struct.unpack(">I", payload[:4])[0]
                 cnt = struct.unpack(">H", payload[6:8])[0]
                 if cnt == 0:
-                    out.append(U(2, (1 if code == 236 else 0, n) + tpf, payload, code))
+                    out.append(U(2, (1 if code == 236 else 0, n) + tpf, payload, code, ext=ext))
                 else:
                     x, y = struct.unpack(">HH", payload[8:12])
                     out.append(U(3, (1 if code == 236 else 0, n, cnt, x, y, 0), payload, code))
@@ -764,9 +765,22 @@ def mutate(units, cfg, rng, major, level):
     return us, k
 
 
-def payloads_parseable(abstract):
+def payloads_parseable(abstract, units=None):
     """`units_valid` of Model/Stream.v on the abstract list (per sequence): filters the generators so
-    that only streams of individually valid data units are judged by the oracle."""
+    that only streams of individually valid data units are judged by the oracle.  With `units`: also
+    that every picture payload was really coded for its sequence header's major_version (with /
+    without extended transform parameters) -- otherwise the abstract description of the unit is wrong."""
+    if units is not None:
+        major = None
+        at_start = True
+        for u in units:
+            if at_start:
+                major = u.f[1] if u.tag == 0 else None
+                at_start = False
+            if u.tag in (1, 2) and major is not None and u.ext != (major >= 3):
+                return False
+            if u.tag == 6:
+                at_start = True
     for s in split_sequences(abstract):
         first = s[0] if s and s[0][0] == T_HDR else None
         for t in s:
@@ -859,12 +873,12 @@ def check_cases(ctx, name, cases):
     that are not explained by a known defect."""
     defs = tables_defs()
     lits = ["(%s, %s)" % (coq_units(c.abstract), cz(c.obs)) for c in cases]
-    bad = ctx.coq_check_cases(name, IMPORTS, "agree gen_tbl lvl_tbls false", lits, shard=250, defs=defs)
+    bad = ctx.coq_check_cases(name, IMPORTS, "agree gen_tbl lvl_tbls false", lits, shard=1500, defs=defs)
     unexplained = 0
     if bad:
         sub = [cases[i] for i in bad]
         bad2 = ctx.coq_check_cases(name + "_pinned", IMPORTS, "agree gen_tbl lvl_tbls true",
-                                   [lits[i] for i in bad], shard=250, defs=defs)
+                                   [lits[i] for i in bad], shard=1500, defs=defs)
         ctx.corr_cases -= len(sub)
         bad2 = set(bad2 or [])
         for k, c in enumerate(sub):
@@ -890,7 +904,7 @@ def check_rules_in_coq(ctx, name, cases):
         for s in split_sequences(c.abstract):
             seqs.append((s, c))
     lits = ["(%s, %s)" % (coq_units(s), clist([1 if b else 0 for b in rule_vector(s)])) for s, _ in seqs]
-    bad = ctx.coq_check_cases(name, IMPORTS, "rules_agree gen_tbl lvl_tbls", lits, shard=300, defs=defs)
+    bad = ctx.coq_check_cases(name, IMPORTS, "rules_agree gen_tbl lvl_tbls", lits, shard=1500, defs=defs)
     ctx.corr_cases -= len(lits)
     for i in bad or []:
         s, c = seqs[i]
@@ -1045,7 +1059,7 @@ def run(ctx):
         if not units or len(units) > maxlen:
             continue
         data, abstract = assemble(units)
-        if not payloads_parseable(abstract) or not desync_safe(units, data):
+        if not payloads_parseable(abstract, units) or not desync_safe(units, data):
             continue
         c = make_case(units, "+".join(labels) or "conformant", cfg.name)
         cases.append(c)
